@@ -472,18 +472,18 @@ theorem fresh_dcoh (kw : Bool) (f : File) (unc : Codec) (sw : Nat → Nat) (bs :
   constructor <;> intro b hb <;> cases hb
 
 /-- the histories whose `read`s use inodes consistent with `sw` (no condition when `kw = true`) -/
-def OpsCons (kw : Bool) (sw : Nat → Nat) (h : List Op) : Prop :=
+def OpsCons (kw : Bool) (sw : Nat → Nat) (h : List OpX) : Prop :=
   ∀ op ∈ h, match op with | .read ino _ _ => ConsIno kw sw ino | _ => True
 
-theorem run_dcoh {kw : Bool} {f : File} {unc : Codec} {sw : Nat → Nat} (hc : CodecOK unc) (sfix : Bool) (h : List Op) :
+theorem run_dcoh {kw : Bool} {f : File} {unc : Codec} {sw : Nat → Nat} (hc : CodecOK unc) (sfix : Bool) (h : List OpX) :
     ∀ d : DR, DCoh kw f unc sw d → OpsCons kw sw h →
-      DCoh kw f unc sw (run kw sfix f unc d h) ∧ (run kw sfix f unc d h).blockSize = d.blockSize := by
+      DCoh kw f unc sw (runX kw sfix f unc d h) ∧ (runX kw sfix f unc d h).blockSize = d.blockSize := by
   induction h with
   | nil => intro d hd _; exact ⟨hd, rfl⟩
   | cons op rest ih =>
     intro d hd hall
     have hrest : OpsCons kw sw rest := fun op hop => hall op (List.mem_cons_of_mem _ hop)
-    have hstep : DCoh kw f unc sw (step kw sfix f unc d op) ∧ (step kw sfix f unc d op).blockSize = d.blockSize := by
+    have hstep : DCoh kw f unc sw (stepX kw sfix f unc d op) ∧ (stepX kw sfix f unc d op).blockSize = d.blockSize := by
       cases op with
       | read ino o n =>
         have hi : ConsIno kw sw ino := hall (.read ino o n) List.mem_cons_self
@@ -497,8 +497,21 @@ theorem run_dcoh {kw : Bool} {f : File} {unc : Codec} {sw : Nat → Nat} (hc : C
         exact ⟨h2, h3⟩
       | reload t => exact reload_dcoh hd t
     have := ih _ hstep.1 hrest
-    unfold run at this ⊢
+    unfold runX at this ⊢
     simp only [List.foldl_cons]
     exact ⟨this.1, this.2.trans hstep.2⟩
+
+/-- the read-only histories (`run`) are the extended ones restricted to `read` ops -/
+theorem runX_embed (kw sfix : Bool) (f : File) (unc : Codec) (h : List Op) :
+    ∀ d : DR, runX kw sfix f unc d (h.map Op.toX) = run kw f unc d h := by
+  induction h with
+  | nil => intro d; rfl
+  | cons op rest ih =>
+    intro d
+    cases op with
+    | read ino o n =>
+      unfold runX run at ih ⊢
+      simp only [List.map_cons, List.foldl_cons, Op.toX, stepX, step]
+      exact ih _
 
 end Sqfs.DataReader
